@@ -369,6 +369,19 @@ impl PoolGen {
             1 => self.slip(),
             _ => Some(Decimal::percent(50)),
         };
+        // a route whose k-th hop does not start where the previous one ended
+        let mut ops = ops;
+        if ops.len() >= 2 && self.rng.gen_range(0..20) == 0 {
+            let k = self.rng.gen_range(1..ops.len());
+            let SwapOperation::MantraSwap { token_in_denom, token_out_denom, pool_identifier } = ops[k].clone();
+            if let Some(p) = obs.pools.get(&pool_identifier) {
+                if let Some(other) = p.info.asset_denoms.iter().find(|d| **d != token_in_denom && **d != token_out_denom).or_else(|| w.cfg.denoms.iter().map(|(d, _)| d).find(|d| **d != token_in_denom)) {
+                    ops[k] = SwapOperation::MantraSwap { token_in_denom: other.clone(), token_out_denom, pool_identifier };
+                }
+            }
+        }
+        // paid in another token than the route starts with
+        let paid_in = if self.rng.gen_range(0..25) == 0 { w.cfg.denoms.iter().map(|(d, _)| d.clone()).find(|d| *d != start).unwrap_or(start.clone()) } else { start };
         Some(Op::Pm {
             sender,
             msg: pm::ExecuteMsg::ExecuteSwapOperations {
@@ -377,7 +390,7 @@ impl PoolGen {
                 receiver: recv,
                 max_slippage: slip,
             },
-            funds: vec![coin(amt, start)],
+            funds: vec![coin(amt, paid_in)],
         })
     }
 
@@ -424,9 +437,16 @@ impl PoolGen {
         if !p.funded() {
             // first deposit
             let tokens = log_uniform(&mut self.rng, 1, 10_000_000);
+            // now and then a constant-product pool between a nearly worthless and a precious
+            // token: whole-token ratios up to 1e16 : 1 (base-unit price below 1e-18)
+            let extreme = p.is_cp() && self.rng.gen_range(0..10) == 0;
+            let lopsided = self.rng.gen_range(10u32..17);
             for (i, a) in p.info.assets.iter().enumerate() {
                 let skew = self.rng.gen_range(50u128..200);
-                let amt = tokens * 10u128.pow(decs.get(i).copied().unwrap_or(6).min(24) as u32) / 100 * skew;
+                let mut amt = tokens * 10u128.pow(decs.get(i).copied().unwrap_or(6).min(24) as u32) / 100 * skew;
+                if extreme && i == 0 {
+                    amt = amt.saturating_mul(10u128.pow(lopsided)).min(10u128.pow(33));
+                }
                 if self.rng.gen_range(0..25) == 0 {
                     continue; // incomplete first deposit
                 }
